@@ -4,7 +4,8 @@
 # then runs the check. Exit 0 = held, 1 = VIOLATION, 2 = harness/build trouble.
 set -u
 prop="${1:?property}"; tier="${2:?tier}"
-cd /verif || exit 2
+cd "$(dirname "$(realpath "$0")")" || exit 2
+export VERIF_DIR="$PWD"
 export GOFLAGS=-mod=mod GOPROXY=off GOSUMDB=off GOTOOLCHAIN=local CGO_ENABLED=1
 mkdir -p bin work replays evidence
 cp /repo/go.sum sim/go.sum 2>/dev/null
@@ -22,7 +23,7 @@ build() { # build <output> <extra flags...>
   mv "$out.tmp.$$" "$out"
 }
 # per-invocation binaries so that concurrent checks do not step on each other
-bin="/verif/bin/sim-$prop-$$"
+bin="$VERIF_DIR/bin/sim-$prop-$$"
 build "$bin"
 export VERIF_RACE_BIN=""
 case "$prop" in
